@@ -10,6 +10,7 @@ require (
 	github.com/pkg/errors v0.9.1
 	github.com/sony/gobreaker v1.0.0
 	golang.org/x/tools v0.29.0
+	google.golang.org/protobuf v1.34.2
 )
 
 require (
@@ -30,7 +31,6 @@ require (
 	github.com/prometheus/common v0.55.0 // indirect
 	github.com/prometheus/procfs v0.15.1 // indirect
 	golang.org/x/sys v0.29.0 // indirect
-	google.golang.org/protobuf v1.34.2 // indirect
 )
 
 replace github.com/ThreeDotsLabs/watermill => /repo
